@@ -21,7 +21,7 @@ for id in $IDS; do
   if ! git -C $WT apply $d/patch.diff 2>/dev/null; then echo "$id STALE (patch does not apply to HEAD)"; continue; fi
   res=$(VERIF_REPO=$WT ${VERIF_HOME:-/verif}/bin/check $prop quick -verif $OUT 2>&1)
   rc=$?
-  rules=$(echo "$res" | grep -oE '^\s+\S+:[0-9]+ R-C[0-9]+-[0-9]+' | awk '{print $2}' | sort -u | paste -sd,)
+  rules=$(echo "$res" | grep -oE '^\s+\S+:[0-9]+ R-C[0-9]+-G?[0-9]+' | awk '{print $2}' | sort -u | paste -sd,)
   if [ $rc -eq 1 ] && echo "$res" | grep -q "^VIOLATION property=$prop"; then echo "$id detected by $rules"
   else
     # a change filed under one property may break the code another property's check is anchored in
@@ -30,7 +30,7 @@ for id in $IDS; do
     for ap in $also; do
       res2=$(VERIF_REPO=$WT ${VERIF_HOME:-/verif}/bin/check $ap quick -verif $OUT 2>&1); rc2=$?
       if [ $rc2 -eq 1 ] && echo "$res2" | grep -q "^VIOLATION property=$ap"; then
-        hit=$(echo "$res2" | grep -oE '^\s+\S+:[0-9]+ R-C[0-9]+-[0-9]+' | awk '{print $2}' | sort -u | paste -sd,)
+        hit=$(echo "$res2" | grep -oE '^\s+\S+:[0-9]+ R-C[0-9]+-G?[0-9]+' | awk '{print $2}' | sort -u | paste -sd,)
       fi
     done
     if [ -n "$hit" ]; then echo "$id detected by $hit (check of another property)"; else echo "$id MISSED (rc=$rc)"; miss=1; fi
